@@ -1,5 +1,5 @@
 """C17 -- samplers interpolate within bounds and resampling follows the given mapping (DESIGN.md section 5, C17)"""
-import json, struct, collections
+import json, struct, collections, math
 import os
 import vlib
 
@@ -9,6 +9,8 @@ def bits(x): return str(struct.unpack("<Q", struct.pack("<d", float(x)))[0])
 
 def gen_ops(ctx):
     r, th, ops = ctx.rng, ctx.thorough(), []
+    def rnd(lo, hi): return lo + (hi - lo) * (r.below(1 << 30) / float(1 << 30))
+    def b32(x): return str(struct.unpack("<I", struct.pack("<f", float(x)))[0])
     shapes = [(w, h) for w in range(1, 5) for h in range(1, 5)] + [(5, 1), (1, 5), (6, 3)]
     if th: shapes += [(w, h) for w in (5, 7, 10) for h in (2, 5, 7, 12)] + [(9, 1), (1, 9), (16, 16)]
     D = 8
@@ -51,8 +53,32 @@ def gen_ops(ctx):
                 ops.append("rsz %s %s %d %d %d %d" % (vt, s, w, h, w, h))
             for _ in range(40 if th else 8):
                 ops.append("rsz %s %s %d %d %d %d" % (vt, s, r.range(1, 7), r.range(1, 7), r.range(1, 9), r.range(1, 9)))
-    def rnd(lo, hi): return lo + (hi - lo) * (r.below(1 << 30) / float(1 << 30))
-    def b32(x): return str(struct.unpack("<I", struct.pack("<f", float(x)))[0])
+    # --- resample_pixels with NON-dyadic scale / translate matrices whose exact images hit integer and half-integer source
+    #     coordinates at some destination column (x*0.1 = 1 at column 10, x*0.3 = 4.5 at column 15, ...): any evaluation of the
+    #     mapping other than transform(map,(x,y)) per pixel (e.g. stepping along the row) lands one ulp off such a boundary;
+    #     double and float matrices, both samplers, small rotations, long float rows
+    STEPS = [0.1, 0.3, 1.0 / 3.0, 0.7, 0.2, 0.6, 0.9, 1.1, 0.05]
+    for si, st in enumerate(STEPS):
+        for sw in (1, 2, 3, 5):
+            for t in (0.0, 0.5, -0.5, 0.25):
+                for smp in "bn":
+                    dw = min(70, int((sw + 1.5) / st) + 3)
+                    vt = VT[(si + sw) % len(VT)]
+                    m = [st, 0.0, 0.0, st, t, t]
+                    ops.append("resf %s %s %d %d %d 2 %s" % (vt, smp, sw, 2, dw, " ".join(map(bits, m))))
+                    ops.append("resg %s %s %d %d %d 2 %s" % (vt, smp, sw, 2, dw, " ".join(map(b32, m))))
+    for i in range(40 if th else 8):       # small rotations (b != 0: the row step moves y too)
+        th_ = rnd(-0.05, 0.05); sc = r.choice(STEPS)
+        m = [sc * math.cos(th_), sc * math.sin(th_), -sc * math.sin(th_), sc * math.cos(th_), r.choice([0.0, 0.5, 1.0]), r.choice([0.0, 0.5])]
+        w, h = r.range(1, 6), r.range(1, 4)
+        for smp in "bn":
+            ops.append("resf %s %s %d %d 60 3 %s" % (r.choice(VT), smp, w, h, " ".join(map(bits, m))))
+            ops.append("resg %s %s %d %d 60 3 %s" % (r.choice(VT), smp, w, h, " ".join(map(b32, m))))
+    for (sw, dw, st) in [(40, 400, 0.1), (60, 600, 0.1), (30, 450, 1.0 / 15.0), (150, 500, 0.3)] + ([(200, 2000, 0.1), (64, 1000, 0.0637)] if th else []):
+        for smp in "bn":                     # long rows with a float matrix: accumulated stepping error would reach a grey level
+            ops.append("resg g8 %s %d 4 %d 4 %s" % (smp, sw, dw, " ".join(map(b32, [st, 0.0, 0.0, st, 0.0, 0.0]))))
+            ops.append("resg rgb8 %s %d 3 %d 2 %s" % (smp, sw, dw, " ".join(map(b32, [st, 0.0, 0.0, 1.0, 0.25, 0.0]))))
+            ops.append("resf g16 %s %d 2 %d 2 %s" % (smp, sw, dw, " ".join(map(bits, [st, 0.0, 0.0, 0.5, 0.0, 0.0]))))
     # --- constant and two-level sources at OFF-grid points (decimal, sevenths, random): all neighbours (nearly) equal, so the
     #     rounding of the float weights is visible in the result (finding C17-bilinear-truncates-below-min, fixed by 056e54b)
     ops.append("bilc g8 d 8 8 c 255 %s %s" % (bits(3.1452003430004312), bits(0.023078170235551899)))     # the Lean witness
@@ -71,7 +97,6 @@ def gen_ops(ctx):
     # --- matrix3x2<double>
     # resample_pixels with arbitrary double matrices (rotation + scale + translation about the source): sample points off the grid,
     # compared with the model's repetition of the IEEE double operation sequence
-    import math
     for vt in VT:
         for s in "bn":
             for i in range(200 if th else 8):
@@ -109,7 +134,7 @@ def nontrivial(op):
 def points_of(op):
     w = op.split()
     if w[0] in ("bil", "near", "tap"): return int(w[8])
-    if w[0] in ("res", "rsz", "resf"): return int(w[5]) * int(w[6])
+    if w[0] in ("res", "rsz", "resf", "resg"): return int(w[5]) * int(w[6])
     if w[0] == "bilc": return (len(w) - 7) // 2
     return 1
 
@@ -166,7 +191,7 @@ def run(ctx, ops=None):
     return vlib.finish(ctx, "proof", obligations, discharged,
         rule="op lines: both samplers on a coordinate-recording virtual view over the complete 1/8-pixel grid of [-2,w+1]x[-2,h+1] for 19 source shapes from 1x1 (every row), "
              "values on 8 view kinds (gray8 complete grid, both point types; the others every third row) and on 1, 1/2, 1/4 grids; resample_pixels with random affine maps with entries k/8 "
-             "(library loop vs direct sample() loop vs model); resample_pixels with random rotation-scale-translation double matrices (model repeats the IEEE operations); bilinear on constant / two-level sources at off-grid float and double points (Float32 / Float replay); resize_view same size and other sizes; matrix3x2<double> product / associativity / inverse / transform / round trip / generators on random "
+             "(library loop vs direct sample() loop vs model); resample_pixels with random rotation-scale-translation double matrices and with non-dyadic scale/translate double and float matrices whose images hit integer / half-integer source boundaries, incl. long float rows (model repeats the IEEE operations); bilinear on constant / two-level sources at off-grid float and double points (Float32 / Float replay); resize_view same size and other sizes; matrix3x2<double> product / associativity / inverse / transform / round trip / generators on random "
              "well-conditioned matrices (bit patterns). non-trivial = grid row that crosses the view, non-identity map, any matrix op (distinct op lines counted)",
         samples=samples, distinct_nontrivial=distinct, assumptions=ASSUME, trusted_base=vlib.TRUSTED_BASE + [
             "no translated kernels for C17 (floating point templates): the model is hand-written and tied by the correspondence run only",
